@@ -465,6 +465,34 @@ fn c04_bounds(rep: &mut Rep) {
         }
         let ops = [(SetOperator::Union, "|"), (SetOperator::Intersection, "^")];
         let probes: Vec<i128> = (-2..=12).collect();
+        // fixed_size: 1..=2 serial SIZE constraints over the same leaves (element or two-element set expression inside SIZE)
+        {
+            use rasn_compiler::verif_hooks::hook_fixed_size;
+            let mut sizes: Vec<(Constraint, String, Box<dyn Fn(i128) -> bool>, bool)> = vec![];   // (constraint, text, permitted sizes, operand marker)
+            for (e, te) in leaves.iter() { for outer in [false, true] {
+                let e2 = e.clone();
+                sizes.push((Constraint::Subtype(ElementSetSpecs { set: ElementOrSetOperation::Element(SubtypeElements::SizeConstraint(Box::new(ElementOrSetOperation::Element(e.clone())))), extensible: outer }),
+                    format!("(SIZE({te}){})", if outer { ", ..." } else { "" }), Box::new(move |v| permits(&e2, v)), ext(e)));
+            } }
+            for (a, ta) in leaves.iter().step_by(4) { for (b, tb) in leaves.iter().step_by(5) {
+                let (a2, b2) = (a.clone(), b.clone());
+                let set = SetOperation { base: a.clone(), operator: SetOperator::Union, operant: Box::new(ElementOrSetOperation::Element(b.clone())) };
+                sizes.push((Constraint::Subtype(ElementSetSpecs { set: ElementOrSetOperation::Element(SubtypeElements::SizeConstraint(Box::new(ElementOrSetOperation::SetOperation(set)))), extensible: false }),
+                    format!("(SIZE({ta} | {tb}))"), Box::new(move |v| permits(&a2, v) || permits(&b2, v)), ext(a) || ext(b)));
+            } }
+            let mut lists: Vec<Vec<usize>> = (0..sizes.len()).map(|i| vec![i]).collect();
+            for i in 0..sizes.len() { for j in (0..sizes.len()).step_by(3) { lists.push(vec![i, j]); } }
+            for l in &lists { for bits in [false, true] {
+                let got = hook_fixed_size(bits, l.iter().map(|i| sizes[*i].0.clone()).collect());
+                let d = || format!("{} {} -> {got:?}", if bits { "BIT STRING" } else { "OCTET STRING" }, l.iter().map(|i| sizes[*i].1.clone()).collect::<Vec<_>>().join(""));
+                let name = if bits { "C04.fixed_size_bits.fixed_only_for_the_single_permitted_size_without_marker" } else { "C04.fixed_size_octets.fixed_only_for_the_single_permitted_size_without_marker" };
+                let ok = match got {
+                    None => true,
+                    Some(n) => !l.iter().any(|i| sizes[*i].3) && probes.iter().all(|v| !(*v >= 0 && l.iter().all(|i| (sizes[*i].2)(*v))) || *v == n as i128),
+                };
+                rep.check(name, ok, d);
+            } }
+        }
         // per_visible_range_constraints: serial lists of 0..=2 integer-fragment constraints (elements and two-element set
         // expressions), signed / unsigned start, with / without a marker after the element set
         {
@@ -503,7 +531,8 @@ fn c04_bounds(rep: &mut Rep) {
                     rep.check("C04.per_visible_range_constraints.extensible_so_far_only_if_a_marker_was_seen", !k.is_extensible() || l.iter().any(|i| cons[*i].4), d);
                     rep.check("C04.per_visible_range_constraints.operand_marker_makes_it_extensible", k.is_extensible() || !l.iter().any(|i| cons[*i].3), d);
                     rep.check("C04.per_visible_range_constraints.operand_marker_seen_so_far_makes_it_extensible", k.is_extensible() || !l.iter().any(|i| cons[*i].3), d);
-                    rep.check("C04.per_visible_range_constraints.value_constraints_are_not_size_bounds", !k.is_size_constraint(), d);
+                    rep.check("C04.per_visible_range_constraints.size_bound_iff_a_size_constraint_is_applied", !k.is_size_constraint(), d);
+                    rep.check("C04.per_visible_range_constraints.size_flag_so_far_iff_a_size_constraint_was_seen", !k.is_size_constraint(), d);
                     if l.is_empty() {
                         rep.check("C04.per_visible_range_constraints.empty_list_is_the_start_value", mx.is_none() && !k.is_extensible() && mn == if signed { None } else { Some(0) }, d);
                     }
